@@ -134,4 +134,152 @@ def marshal (cfg : Cfg) (force : Bool) (rand : Bytes) (time : Nat) : Option Byte
                 if lengthOnTheWire ≥ 16777216 then none
                 else some (1 :: u24 lengthOnTheWire ++ hello.drop 4)
 
+/-! ## The hello a real client sends (`c29 wire`)
+
+  Model of the fingerprint branch of `tls/handshake_client.go: (*Conn).clientHandshake` up to
+  `c.WriteRecord(recordTypeHandshake, hello.marshal())`, as far as it decides WHICH bytes are sent:
+  `ClientFingerprintConfiguration.WriteToConfig` (the `SNIExtension.Autopopulate` rewrite of the extension
+  list), the lookup in the fingerprint's `SessionCache`, the `SessionTicketExtension.Autopopulate` /
+  `RandomSessionID` loop, `marshal`, `hello.unmarshal(helloBytes)` (which keeps the bytes in `hello.raw`,
+  what `hello.marshal()` returns), and the first lines of `loadSession`.
+  Everything between `unmarshal` and `WriteRecord` leaves `hello.raw` alone, so the bytes on the wire are
+  the bytes `marshal` produced for the rewritten configuration.  -/
+
+/-- an entry of `ClientFingerprintConfiguration.Extensions`: a built-in extension and its `Autopopulate`
+    flag (only `SNIExtension` and `SessionTicketExtension` have one) -/
+structure WExt where
+  e : Ext
+  auto : Bool
+  deriving DecidableEq, Repr
+
+/-- `ClientFingerprintConfiguration.SessionCache` / `CacheKey` and what `Get(cacheKey)` finds -/
+inductive FpCache where
+  | none                                            -- SessionCache == nil
+  | noKey                                           -- SessionCache set, CacheKey == nil
+  | empty                                           -- Get: !ok
+  | hit (vers suite : UInt16) (ticket : Bytes)      -- candidateSession.vers / .cipherSuite / .sessionTicket
+  deriving DecidableEq, Repr
+
+/-- the inner loop of `(*SNIExtension).WriteToConfig` with `Autopopulate`: EVERY `*SNIExtension` of the list
+    becomes a `NullExtension` (no `Config.ServerName`) or `SNIExtension{[ServerName], Autopopulate: true}` -/
+def replaceSni (exts : List WExt) (sn : Bytes) : List WExt :=
+  exts.map (fun w =>
+    match w.e with
+    | .sni _ => if sn.isEmpty then { e := .null, auto := false } else { e := .sni [sn], auto := true }
+    | _ => w)
+
+/-- `for _, ext := range c.Extensions { ext.WriteToConfig(config) }`: position `i`, `fuel` = iterations
+    left (the `range` bound is the fixed length of the slice; the elements are read live, so an entry
+    rewritten by an earlier `Autopopulate` SNI is seen in its new form).  State: the list and
+    `config.ServerName`. Only `SNIExtension.WriteToConfig` touches either. -/
+def wtcLoop : Nat → Nat → List WExt → Bytes → List WExt × Bytes
+  | 0, _, exts, sn => (exts, sn)
+  | fuel + 1, i, exts, sn =>
+    match exts[i]? with
+    | none => (exts, sn)
+    | some w =>
+      match w.e with
+      | .sni domains =>
+        let exts' := if w.auto then replaceSni exts sn else exts
+        -- `if c.ServerName == "" && len(e.Domains) > 0 { c.ServerName = e.Domains[0] }` (e = the receiver)
+        let sn' := if sn.isEmpty then (match domains with | d :: _ => d | [] => sn) else sn
+        wtcLoop fuel (i + 1) exts' sn'
+      | _ => wtcLoop fuel (i + 1) exts sn
+
+def isTicket (w : WExt) : Bool := match w.e with | .ticket _ => true | _ => false
+
+/-- `tls/common.go: supportedVersions` -/
+def supportedVersionsTable : List UInt16 := [0x0304, 0x0303, 0x0302, 0x0301]
+
+/-- `config.minSupportedVersion()` with `MinVersion = 0` and `MaxVersion = HandshakeVersion`
+    (`WriteToConfig` sets it): the last entry of the table that is not above the handshake version, else 0 -/
+def minSupported (hv : UInt16) : UInt16 :=
+  match (supportedVersionsTable.filter (fun v => v ≤ hv)).getLast? with
+  | some v => v
+  | none => 0
+
+/-- the session the handshake will try to resume (`session`), if any -/
+def pickSession (cfg : Cfg) : FpCache → Option Bytes
+  | .hit vers suite ticket =>
+    let cipherSuiteOk := cfg.suites.contains suite
+    let versOk := decide (vers ≥ minSupported cfg.vers) && decide (vers ≤ cfg.vers)
+    if versOk && cipherSuiteOk then some ticket else none
+  | _ => none
+
+/-- the `SessionTicketExtension.Autopopulate` loop. State: session id and the unread rest of `Config.Rand`;
+    `none` = short read from Rand. -/
+def ticketLoop (session : Option Bytes) (forceTicket : Bool) (rsid : Nat) :
+    List WExt → Bytes → Bytes → Option (List WExt × Bytes × Bytes)
+  | [], sid, rand => some ([], sid, rand)
+  | w :: rest, sid, rand =>
+    if isTicket w && w.auto then
+      match session with
+      | none =>
+        let w' : WExt := if !forceTicket then { e := .null, auto := false } else w
+        match ticketLoop session forceTicket rsid rest sid rand with
+        | none => none
+        | some (r, sid', rand') => some (w' :: r, sid', rand')
+      | some t =>
+        let w' : WExt := { e := .ticket t, auto := true }
+        if rsid > 0 then
+          if rand.length < rsid then none
+          else
+            match ticketLoop session forceTicket rsid rest (rand.take rsid) (rand.drop rsid) with
+            | none => none
+            | some (r, sid', rand') => some (w' :: r, sid', rand')
+        else
+          match ticketLoop session forceTicket rsid rest sid rand with
+          | none => none
+          | some (r, sid', rand') => some (w' :: r, sid', rand')
+    else
+      match ticketLoop session forceTicket rsid rest sid rand with
+      | none => none
+      | some (r, sid', rand') => some (w :: r, sid', rand')
+
+inductive WireRes where
+  | err                      -- Handshake returns an error before a handshake record is written
+  | panic                    -- run-time panic
+  | sent (hello : Bytes)     -- payload of the first handshake record(s)
+  deriving DecidableEq, Repr
+
+/-- the configuration `marshal` is called with: extension list after both rewrites, session id, rest of Rand -/
+def effectiveCfg (cfg : Cfg) (wexts : List WExt) (serverName : Bytes) (cache : FpCache) (rsid : Nat)
+    (rand : Bytes) : Option (Cfg × Bytes) :=
+  let exts1 := (wtcLoop wexts.length 0 wexts serverName).1
+  -- `SessionTicketExtension.WriteToConfig` sets `ForceSessionTicketExt` (reset to false before the loop)
+  let forceTicket := exts1.any isTicket
+  match cache with
+  | .noKey => none                                      -- "must specify CacheKey …"
+  | _ =>
+    match ticketLoop (pickSession cfg cache) forceTicket rsid exts1 cfg.sessionId rand with
+    | none => none
+    | some (exts2, sid, rand') => some ({ cfg with sessionId := sid, exts := exts2.map (·.e) }, rand')
+
+/-- `configCache` = `Config.ClientSessionCache != nil && !Config.SessionTicketsDisabled`: `loadSession` then goes
+    past its first guard and looks at `hello.supportedVersions` — of the hello PARSED BACK from the fingerprint's bytes;
+    no built-in extension type produces supported_versions, so the list is empty unless a user-defined extension does.
+    `guard` = the `len(hello.supportedVersions) > 0 &&` in front of `hello.supportedVersions[0] == VersionTLS13`
+    (commit 87b3ec4). With it and an empty list: no psk_modes; `Get(cacheKey)`; for a cached session
+    `versOk` stays false (the loop over the empty list finds nothing) and loadSession returns without touching the
+    hello's ticket / PSK fields — only `hello.ticketSupported = true` is set on the struct, which `marshal()` = `raw`
+    does not re-encode. Without the guard (the code before the fix): index out of range. -/
+def wireHelloWith (guard : Bool) (cfg : Cfg) (wexts : List WExt) (serverName : Bytes) (cache : FpCache) (rsid : Nat)
+    (configCache : Bool) (force : Bool) (rand : Bytes) (time : Nat) : WireRes :=
+  match effectiveCfg cfg wexts serverName cache rsid rand with
+  | none => .err
+  | some (cfg', rand') =>
+    match marshal cfg' force rand' time with
+    | none => .err
+    | some helloBytes =>
+      match parseClientHello helloBytes with
+      | none => .err                                    -- "incompatible ClientFingerprintConfiguration"
+      | some hello =>
+        if !guard && configCache && hello.supportedVersions.isEmpty then .panic
+        else .sent helloBytes                           -- hello.marshal() = hello.raw = helloBytes
+
+/-- the code as it is (with the guard) -/
+def wireHello (cfg : Cfg) (wexts : List WExt) (serverName : Bytes) (cache : FpCache) (rsid : Nat)
+    (configCache : Bool) (force : Bool) (rand : Bytes) (time : Nat) : WireRes :=
+  wireHelloWith true cfg wexts serverName cache rsid configCache force rand time
+
 end ZV.C29
